@@ -520,7 +520,7 @@ func genC17(r *rand.Rand, tier string, idx int) *World {
 	e := &EDSDef{NS: "ns1", Name: "foo", Initial: "A", Templates: map[string]*TemplateDef{"A": {Letter: "A"}, "B": {Letter: "B"}}}
 	e.Strategy = StrategyDef{MaxUnavailable: pick(r, "100%", "50%", "3"), SlowStartIncrease: "100%", SlowStartInterval: "10s", ReconcileFrequency: "10s"}
 	if chance(r, 0.4) {
-		e.Strategy.Canary = &CanaryDef{Replicas: pick(r, "1", "3"), Duration: "1m"}
+		e.Strategy.Canary = &CanaryDef{Replicas: pick(r, "1", "3"), Duration: "10m"}
 	}
 	w.EDS = []*EDSDef{e}
 	w.Extra["batchFail"] = []string{"none", "some", "all"}[idx%3]
@@ -558,6 +558,21 @@ func bodyC17(s *Sim) {
 	s.settleAll()
 	// a template change: simultaneous update-deletions (and a canary in some worlds)
 	s.userSetTemplate(def.NS, def.Name, "B")
+	s.RunTask(CtrlEDS, key)
+	s.RunTask(CtrlEDS, key)
+	if e := s.Store.GetEDS(def.NS, def.Name); e != nil && e.Status.Canary != nil {
+		// clean-up work for the canary role: duplicates on the canary nodes
+		if b := s.ersByLetter(def, "B"); b != nil {
+			for _, cn := range e.Status.Canary.Nodes {
+				if n := s.Store.GetNode(cn); n != nil {
+					s.injectPod(b, n, PodState{Kind: "ready", AgeSec: 20, Suffix: "-d1"})
+					s.injectPod(b, n, PodState{Kind: "ready", AgeSec: 10, Suffix: "-d2"})
+				}
+			}
+			s.Advance(11 * time.Second)
+			s.RunTask(CtrlERS, types.NamespacedName{Namespace: b.Namespace, Name: b.Name})
+		}
+	}
 	s.Chaos()
 	s.Quiesce()
 }
